@@ -52,6 +52,7 @@ bool g_kernel_mode = false;      // the byte stream is served through getrandom(
 bool g_getrandom_enosys = false; // kernel without getrandom(): forces the /dev/urandom path
 bool g_internal = false;         // the opt-in internal generator (ChaCha20-based, keyed from the kernel) is the installed source
 bool g_getentropy_enosys = false;
+bool g_prehistory_enosys = false; // while the process's earlier history is being played: the kernel has no getrandom()
 uint64_t g_tod = 0;
 Rng g_kfault;                    // kernel fault decisions (seeded from the plan)
 unsigned g_kfault_pct = 0;
@@ -61,11 +62,14 @@ int g_open_fds = 0;
 int g_urandom_state = 0; // 0 present, 1 missing (ENOENT), 2 present but not a character device: the library must fall back to /dev/random
 bool g_fd_open[2] = {false, false}; // simulated descriptor table: a closed descriptor is EBADF, as in a real kernel
 
+unsigned char g_child_kernel_salt = 0; // a forked child gets other bytes from the kernel than its parent does
 void kernel_serve(void *buf, size_t n) {
     g_src.log.push_back({'k', n, g_src.pos});
     g_src.serve((unsigned char *) buf, n);
+    if (g_child_kernel_salt) for (size_t i = 0; i < n; i++) ((unsigned char *) buf)[i] ^= g_child_kernel_salt;
 }
 ssize_t h_getrandom(void *buf, size_t n, unsigned) {
+    if (!g_kernel_mode && g_prehistory_enosys) { errno = ENOSYS; return -1; }
     if (!g_kernel_mode) { AMB.hit("getrandom"); AMB.rng.fill(buf, n); return (ssize_t) n; }
     if (g_getrandom_enosys) { errno = ENOSYS; return -1; }
     if (g_kfault_pct && g_kfault.below(100) < g_kfault_pct) {
@@ -150,7 +154,8 @@ int h_gettimeofday(struct timeval *tv, void *) {
     // the internal generator uses the time of day as the nonce of its stream: part of the simulated kernel there
     if (g_internal) { tv->tv_sec = 1700000000; tv->tv_usec = (suseconds_t) (++g_tod); return 0; }
     AMB.hit("gettimeofday"); tv->tv_sec = (time_t) (1700000000 + AMB.rng.below(1000000)); tv->tv_usec = (suseconds_t) AMB.rng.below(1000000); return 0; }
-pid_t h_getpid(void) { if (g_internal) return 4242; AMB.hit("getpid"); return (pid_t) (1000 + AMB.rng.below(30000)); }
+int g_pid_offset = 0; // 1 in a forked child of the simulated process
+pid_t h_getpid(void) { if (g_internal) return 4242 + g_pid_offset; AMB.hit("getpid"); return (pid_t) (1000 + AMB.rng.below(30000)); }
 time_t h_time(time_t *t) { AMB.hit("time"); time_t v = (time_t) (1700000000 + AMB.rng.below(1000000)); if (t) *t = v; return v; }
 int h_clock_gettime(clockid_t, struct timespec *ts) { AMB.hit("clock_gettime"); ts->tv_sec = (time_t) (1700000000 + AMB.rng.below(1000000)); ts->tv_nsec = (long) AMB.rng.below(1000000000); return 0; }
 uint32_t h_arc4random(void) { AMB.hit("arc4random"); return AMB.rng.u32(); }
@@ -166,11 +171,11 @@ void h_assert_fail(const char *, const char *, unsigned, const char *) { if (g_t
 // ---------------- plan ----------------
 enum Kind {
     K_KEYGEN = 0, K_BOX_KEYPAIR, K_BOXX_KEYPAIR, K_KX_KEYPAIR, K_SIGN_KEYPAIR, K_INIT_PUSH, K_SEAL, K_SEALX, K_PWHASH_STR, K_SCRYPT_STR,
-    K_POINT_ED, K_POINT_RIS, K_SCALAR_ED, K_SCALAR_RIS, K_UNIFORM, K_RANDOM, K_BUF, K_DETERMINISTIC, K_STIR, K_CLOSE, K_LEGACY, K_GIANT_LEGACY, K_NKINDS
+    K_POINT_ED, K_POINT_RIS, K_SCALAR_ED, K_SCALAR_RIS, K_UNIFORM, K_RANDOM, K_BUF, K_DETERMINISTIC, K_STIR, K_CLOSE, K_LEGACY, K_GIANT_LEGACY, K_FORK_DRAW, K_NKINDS
 };
 const char *kind_name[K_NKINDS] = {"keygen", "box_keypair", "box_xchacha_keypair", "kx_keypair", "sign_keypair", "secretstream_init_push", "box_seal",
                                    "box_xchacha_seal", "pwhash_str", "scrypt_str", "ed25519_random", "ristretto255_random", "ed25519_scalar_random",
-                                   "ristretto255_scalar_random", "uniform", "random", "buf", "buf_deterministic", "stir", "close", "randombytes_legacy", "randombytes_legacy_4GiB"};
+                                   "ristretto255_scalar_random", "uniform", "random", "buf", "buf_deterministic", "stir", "close", "randombytes_legacy", "randombytes_legacy_4GiB", "fork_then_draw_in_parent_and_child"};
 
 struct Op {
     int kind = K_KEYGEN;
@@ -236,8 +241,38 @@ struct Exec {
         }
     }
 
+    // fork(): parent and child both draw 32 bytes without stirring.  With the internal generator the child must not hand
+    // out what the parent hands out (it notices the new pid: on the current tree it refuses to continue)
+    void fork_draw(OpOut &o, unsigned char prefill) {
+        int pfd[2];
+        if (pipe(pfd) != 0) return;
+        fflush(stdout); fflush(stderr);
+        pid_t pid = fork();
+        if (pid == 0) {
+            close(pfd[0]);
+            g_child_kernel_salt = 0x5a;
+            g_term_armed = 0; g_pid_offset = 1; // in the child a sodium_misuse() really ends the process
+            signal(SIGABRT, SIG_DFL);
+            unsigned char b[32];
+            memset(b, prefill, sizeof b);
+            { LibScope l; randombytes_buf(b, sizeof b); }
+            if (write(pfd[1], b, sizeof b) != (ssize_t) sizeof b) _exit(9);
+            _exit(0);
+        }
+        close(pfd[1]);
+        o.out.assign(32, prefill);
+        { LibScope l; randombytes_buf(o.out.data(), 32); }
+        unsigned char cb[32]; ssize_t got = read(pfd[0], cb, sizeof cb);
+        close(pfd[0]);
+        int st = 0; waitpid(pid, &st, 0);
+        res.count(WIFEXITED(st) && WEXITSTATUS(st) == 0 ? "probe.fork_child_drew" : "probe.fork_child_refused_to_continue");
+        if (WIFEXITED(st) && WEXITSTATUS(st) == 0 && got == 32 && memcmp(cb, o.out.data(), 32) == 0)
+            o.invalid = "generator-output-repeats|fork|after fork() the child drew the same 32 bytes from the generator as the parent";
+    }
+
     void run_op(const Op &op, OpOut &o, unsigned char prefill) {
         Bytes &out = o.out;
+        if (op.kind == K_FORK_DRAW) { fork_draw(o, prefill); return; }
         LibScope l;
         switch (op.kind) {
         case K_KEYGEN: {
@@ -625,6 +660,7 @@ struct Exec {
         res.nontrivial = any_adversarial || faults_fired;
         res.count(std::string("knob.cpu_disable=") + cpu_mask_name((unsigned) plan.pk.at("cpu_disable").u64()));
         res.count("knob.source=" + plan.pk.at("source").str());
+        if (plan.pk.at("source").str() == "scripted") res.count("knob.default_source_prehistory=" + std::to_string(plan.pk.at("prehistory").u64()));
         if (plan.pk.at("source").str() == "scripted") res.count("knob.optional_callbacks_absent=" + std::to_string(plan.pk.at("impl_shape").u64()));
         if (plan.pk.at("source").str().find("devurandom") != std::string::npos) res.count("knob.dev_urandom=" + std::string(plan.pk.at("urandom").u64() == 0 ? "present" : plan.pk.at("urandom").u64() == 1 ? "missing" : "not-a-device"));
         return res;
@@ -659,6 +695,9 @@ struct C18 {
         unsigned c2 = (unsigned) r.below(100);
         (void) c;
         pk["urandom"] = (unsigned) (r.below(3) == 0 ? r.range(1, 2) : 0); // only matters for the *_devurandom sources
+        // scripted source: what the process did with the DEFAULT source before the scripted one was installed
+        // 0 nothing, 1 used it, 2 used it on a kernel without getrandom(), 3 as 2 and then closed it
+        pk["prehistory"] = (unsigned) (r.chance(1, 2) ? 0 : r.range(1, 3));
         pk["impl_shape"] = (unsigned) (r.chance(1, 2) ? 0 : r.range(1, 3)); // scripted source: which optional callbacks (stir, close) the installed implementation leaves NULL
         pk["source"] = c2 < 50 ? "scripted" : c2 < 68 ? "kernel_getrandom" : c2 < 82 ? "kernel_devurandom" : c2 < 92 ? "internal_getentropy" : "internal_devurandom";
         return pk;
@@ -680,6 +719,13 @@ struct C18 {
         simos_hooks.arc4random_ = h_arc4random; simos_hooks.arc4random_buf_ = h_arc4random_buf; simos_hooks.rand_ = h_rand; simos_hooks.random_ = h_random;
         g_src.reset(0xb007);
         AMB.reset(7);
+        if (!g_kernel_mode && pk.at("prehistory").u64() != 0) {
+            unsigned pre = (unsigned) pk.at("prehistory").u64();
+            unsigned char t[8];
+            g_prehistory_enosys = pre >= 2;
+            { LibScope l; randombytes_buf(t, sizeof t); if (pre == 3) (void) randombytes_close(); }
+            g_prehistory_enosys = false;
+        }
         if (!g_kernel_mode) randombytes_set_implementation(scripted_impl((unsigned) pk.at("impl_shape").u64()));
         if (g_internal) randombytes_set_implementation(&randombytes_internal_implementation);
         LibScope l;
@@ -767,7 +813,8 @@ struct C18 {
             else if (c < 900) op.kind = K_BUF;
             else if (c < 910) op.kind = K_LEGACY;
             else if (c < 970) op.kind = K_DETERMINISTIC;
-            else if (c < 985) op.kind = K_STIR;
+            else if (c < 978) op.kind = K_STIR;
+            else if (c < 985) op.kind = pk.at("source").str().compare(0, 8, "internal") == 0 ? K_FORK_DRAW : K_STIR;
             else op.kind = K_CLOSE;
             op.arg2 = r.u32();
             size_t plain = 0;
@@ -781,7 +828,7 @@ struct C18 {
             case K_RANDOM: op.arg = r.chance(1, 5) ? (uint32_t) r.pick<uint32_t>({112, 119, 120, 127, 240, 300, 500}) : 0; plain = 4 * ((size_t) op.arg + 1); break;
             case K_POINT_RIS: plain = 64; break;
             case K_INIT_PUSH: plain = 24; break;
-            case K_STIR: case K_CLOSE: break;
+            case K_STIR: case K_CLOSE: case K_FORK_DRAW: break;
             default: plain = 32; break;
             }
             if (plain) {
@@ -805,7 +852,7 @@ struct C18 {
         for (size_t k = 0; k < nops; k++) {
             size_t idx = ((size_t) p.flip_op + k) % nops;
             int kd = p.ops[idx].kind;
-            if (kd != K_UNIFORM && kd != K_RANDOM && kd != K_DETERMINISTIC && kd != K_STIR && kd != K_CLOSE && !((kd == K_BUF || kd == K_LEGACY) && p.ops[idx].arg == 0)) { p.flip_op = (int) idx; break; }
+            if (kd != K_UNIFORM && kd != K_RANDOM && kd != K_DETERMINISTIC && kd != K_STIR && kd != K_CLOSE && kd != K_FORK_DRAW && !((kd == K_BUF || kd == K_LEGACY) && p.ops[idx].arg == 0)) { p.flip_op = (int) idx; break; }
         }
         p.flip_bit = f.u32();
         return p;
@@ -846,6 +893,7 @@ struct C18 {
         std::vector<Plan> out;
         if (p.pk.at("cpu_disable").u64() != 0) { Plan c = p; c.pk["cpu_disable"] = 0u; out.push_back(c); }
         if (p.pk.at("impl_shape").u64() != 0) { Plan c = p; c.pk["impl_shape"] = 0u; out.push_back(c); }
+        if (p.pk.at("prehistory").u64() != 0) { Plan c = p; c.pk["prehistory"] = 0u; out.push_back(c); }
         if (p.kfault_pct) { Plan c = p; c.kfault_pct = 0; out.push_back(c); }
         if (p.flip_op >= 0) { Plan c = p; c.flip_op = -1; out.push_back(c); }
         for (size_t i = 0; i < p.ops.size(); i++) {
